@@ -106,6 +106,20 @@ def one_dataset(obs, rng, conv, spec):
         aux[aux_name] = a['dim']
         obs.cls('auxiliary-coordinate-on-depth-dimension')
     model.depth_info['aux'] = aux
+    # a bathymetry variable: depth-like attributes (standard_name "depth", positive) but defined on one of the grids -
+    # it describes the sea floor of every cell / node / edge, it is not a depth axis, and has to be left as it was
+    if chance(rng, 0.4):
+        kname = pick(rng, sorted(model.kinds))
+        kind = model.kinds[kname]
+        battrs = dict(pick(rng, [{'standard_name': 'depth', 'positive': 'down'}, {'positive': 'up'}, {'positive': 'down', 'units': 'm'},
+                                 {'standard_name': 'depth'}, {'coordinate_type': 'Z'}, {'standard_name': 'depth', 'axis': 'Z'}]))
+        bname = pick(rng, ['botz', 'bathymetry', 'h']) + '_' + kname
+        import xarray
+        ds[bname] = xarray.DataArray(rng.uniform(1, 80, size=kind.shape).round(2), dims=kind.dims, attrs=battrs)
+        if chance(rng, 0.3):
+            ds = ds.set_coords(bname)
+        obs.cls('bathymetry-on-grid')
+        obs.cls('bathymetry-on-non-default-grid' if kname != model.default_kind else 'bathymetry-on-default-grid')
     spec['model'] = model.describe()
     spec['axes'] = [depthgen.axis_summary(a) for a in axes]
     obs.cls('conv:' + conv)
